@@ -1,91 +1,519 @@
+// Harness c08: DPoS finality (LIB). Real dpos.Status objects (NewStatus, Update — both branches —,
+// Save through the real ChainDB.connectToChain/swapChainMapping, restart through NewStatus/bootLoader
+// on the same store, NeedReorganization, DPoS.VerifyTimestamp) are driven with generated histories and
+// compared operation by operation with the Lean model `Aergo.Lib`; the property's own predicates
+// (oracle.go) are evaluated on what the real code reports.
+//
+//	part A  scripted histories (the two finding classes, and sanity runs)
+//	part B  random multi-node schedules: producer slots, missed slots, partitions, delays, restarts, at most
+//	        one equivocating producer (f < n/3); node 0 runs on the real chain.ChainDB and is recorded
+//	part C  arbitrary single-node streams (lying Confirms, outsiders, producer-count changes, injected gc):
+//	        correspondence only, no property oracle (outside the fault model)
+//	part D  bounded exhaustive exploration from a warm state (SEARCH, labelled so)
 package main
 
 import (
+	"crypto/sha256"
 	"fmt"
 	"os"
+	"path/filepath"
+	"strings"
 
 	"github.com/aergoio/aergo-lib/db"
-	"github.com/aergoio/aergo/v2/chain"
 	"github.com/aergoio/aergo/v2/consensus/impl/dpos"
-	"github.com/aergoio/aergo/v2/p2p/p2pkey"
 	"github.com/aergoio/aergo/v2/state"
-	"github.com/aergoio/aergo/v2/types"
-	"github.com/libp2p/go-libp2p/core/crypto"
+	"github.com/aergoio/aergo/v2/zz_verif/vh"
 	"github.com/rs/zerolog"
 )
 
-type cm struct{ n uint16 }
+type env struct {
+	run     *vh.Run
+	pool    []*producer
+	sdb     *state.ChainStateDB
+	scratch db.DB
+	nstore  int
+}
 
-func (c *cm) Size() uint16            { return c.n }
-func (c *cm) Update(ids []string) error { fmt.Println("cm.Update", ids); return nil }
+func (e *env) world(rng *vh.Rng, gbps []int) *world {
+	return newWorld(e.run, rng, e.pool, gbps, e.sdb, e.scratch)
+}
+
+func (e *env) realStore(w *world) chainStore {
+	e.nstore++
+	return newRealStore(w, filepath.Join(e.run.Out, "cdb", fmt.Sprint(e.nstore)))
+}
+
+func lightFor(w *world) func(int) chainStore {
+	return func(int) chainStore {
+		return &lightStore{w: w, main: []*sblk{w.gblk}, known: map[*sblk]bool{w.gblk: true}}
+	}
+}
+
+func seqN(n int) []int {
+	var r []int
+	for i := 0; i < n; i++ {
+		r = append(r, i)
+	}
+	return r
+}
 
 func main() {
 	zerolog.SetGlobalLevel(zerolog.Disabled)
-	dir := "/var/tmp/c08/probe"
-	os.RemoveAll(dir)
-	os.MkdirAll(dir, 0o755)
-	store := db.NewDB(db.MemoryImpl, dir+"/c")
-	cdb, err := chain.VerifC08ChainDBOn(store)
-	if err != nil {
+	run := vh.Start("c08", "an operation is non-trivial when it reached the real Status (Update/NeedReorganization/VerifyTimestamp/restart) on a node with at least one block")
+	e := &env{run: run, pool: newProducerPool(9)}
+	e.sdb = state.NewChainStateDB()
+	if err := e.sdb.Init("memorydb", filepath.Join(run.Out, "sdb"), nil, false, nil); err != nil {
 		panic(err)
 	}
-	g := &types.Genesis{ID: types.ChainID{Magic: "verif", Consensus: "dpos", PublicNet: true}, Timestamp: 1}
-	if err := cdb.VerifC08AddGenesis(g); err != nil {
-		panic(err)
-	}
-	sdb := state.NewChainStateDB()
-	if err := sdb.Init("memorydb", dir+"/s", nil, false, nil); err != nil {
-		panic(err)
-	}
-	var keys []crypto.PrivKey
-	var ids []string
-	for i := 0; i < 3; i++ {
-		k, _, _ := crypto.GenerateKeyPair(crypto.Secp256k1, 256)
-		keys = append(keys, k)
-	}
-	dpos.Init(3)
-	mk := func(prev *types.Block, bp int, confirms uint64) *types.Block {
-		b := types.NewBlock(&types.BlockHeaderInfo{No: prev.BlockNo() + 1, Ts: int64(prev.BlockNo()+1) * 1000, PrevBlockHash: prev.BlockHash(), ChainId: prev.GetHeader().GetChainID()}, nil, nil, nil, nil, nil)
-		b.SetConfirms(confirms)
-		if err := b.Sign(keys[bp]); err != nil {
-			panic(err)
+	e.scratch = db.NewDB(db.MemoryImpl, filepath.Join(run.Out, "scratch"))
+
+	partA(e)
+	partB(e)
+	partC(e)
+	partD(e)
+
+	os.RemoveAll(filepath.Join(run.Out, "cdb"))
+	os.RemoveAll(filepath.Join(run.Out, "sdb"))
+	os.RemoveAll(filepath.Join(run.Out, "scratch"))
+	run.Finish()
+}
+
+// ---------------------------------------------------------------- part A: scripted
+
+// honestRound: producers at positions `who` (in order) each produce one block on the single node's best
+// chain with honest Confirms; the node is an observer of a fully connected network.
+type scripted struct {
+	w   *world
+	nd  *node
+	lpb map[int]uint64
+}
+
+func (s *scripted) block(pos int) *sblk {
+	bpi := s.w.gbps[pos]
+	parent := s.nd.best
+	b := s.w.mkBlock(parent, bpi, parent.no+1-s.lpb[bpi])
+	s.lpb[bpi] = b.no
+	s.nd.arrive(b)
+	return b
+}
+
+func partA(e *env) {
+	run := e.run
+	// A1: the veto gap after a restart (class C08-restart-lazy-load-veto-gap). n = 4 producers, the equivocator p3
+	// and the partitioned correct producer p2 build a longer branch from below this node's LIB while p0 (this
+	// node) is cut off from p1; the node restarts; the branch arrives.
+	{
+		w := e.world(run.Rng.Fork(), seqN(4))
+		rec := &recorder{run: run}
+		nd := newNode(w, 0, e.realStore(w), rec)
+		s := &scripted{w: w, nd: nd, lpb: map[int]uint64{}}
+		var chain []*sblk
+		for i := 0; i < 8; i++ { // 1:p0 2:p1 3:p3 4:p0 5:p1 6:p3 7:p0 8:p1 (p2 is partitioned away and misses its slots)
+			chain = append(chain, s.block([]int{0, 1, 3}[(i+0)%3]))
 		}
-		return b
+		nd.enter()
+		libBefore := nd.dump().Lib.No
+		nd.leave()
+		// the other branch forks at block 2 (below the LIB): p2 (correct, sees only what p3 shows it, honest Confirms)
+		// and p3 (equivocating, chain-locally honest Confirms); 7 blocks, longer than this node's chain
+		var br []*sblk
+		parent := chain[1]
+		lp := map[int]uint64{}
+		for i := 0; i < 7; i++ {
+			p := 2 + i%2
+			b := w.mkBlock(parent, p, parent.no+1-lp[p])
+			lp[p] = b.no
+			br = append(br, b)
+			parent = b
+		}
+		// without a restart the branch is refused ...
+		probe := nd.clone2(e, w)
+		for _, b := range br {
+			probe.arrive(b)
+		}
+		if probe.best != chain[7] {
+			run.Fail("scripted A1: a node that did not restart adopted a branch forking below its LIB", probe.replay())
+		}
+		// ... after a restart it is adopted
+		nd.restart()
+		for _, b := range br {
+			nd.arrive(b)
+		}
+		run.Count(fmt.Sprintf("A1 lib-before-restart=%d best-after=%s", libBefore, nd.best.name))
 	}
-	gb := g.Block()
-	b0 := mk(gb, 0, 1)
-	ids = append(ids, b0.BPID2Str())
-	p2pkey.VerifC08SetNodeSID(ids[0])
-	c := &cm{3}
-	st := dpos.NewStatus(c, cdb, sdb, 0)
-	d := dpos.VerifC08NewDPoS(st, cdb)
-	cdb.VerifC08SetConsensus(d)
-	fmt.Printf("%+v\n", st.VerifC08Dump())
-	prev := gb
-	lpb := []uint64{0, 0, 0}
-	var blocks []*types.Block
-	for i := 0; i < 8; i++ {
-		bp := i % 3
-		b := mk(prev, bp, prev.BlockNo()+1-lpb[bp])
-		lpb[bp] = b.BlockNo()
-		cdb.VerifC08StoreBlock(b)
-		fmt.Println("verifyts", d.VerifyTimestamp(b))
-		st.Update(b)
-		cdb.VerifC08Connect(b)
-		fmt.Printf("%d %+v\n", b.BlockNo(), st.VerifC08Dump())
-		prev = b
-		blocks = append(blocks, b)
+	// A2: confirmsRequired handed to newLibStatus as a producer count (class C08-reload-quorum-shrinks): 7 producers, only
+	// p0 p1 p2 ever produce; a restart replays the window with a quorum of cr(cr(cr(7))) = 3 instead of 5.
+	{
+		w := e.world(run.Rng.Fork(), seqN(7))
+		rec := &recorder{run: run}
+		nd := newNode(w, 6, e.realStore(w), rec)
+		s := &scripted{w: w, nd: nd, lpb: map[int]uint64{}}
+		for i := 0; i < 9; i++ {
+			s.block(i % 3)
+		}
+		nd.restart()
+		for i := 0; i < 6; i++ {
+			s.block(i % 3)
+		}
+		nd.enter()
+		run.Count(fmt.Sprintf("A2 lib-after=%d", nd.dump().Lib.No))
+		nd.leave()
 	}
-	// restart
-	cdb2, err := chain.VerifC08ChainDBOn(store)
-	if err != nil {
-		panic(err)
+}
+
+// clone2: an independent node (own real store) that has processed the same arrivals, for "what if" probes.
+func (n *node) clone2(e *env, w *world) *node {
+	c := newNode(w, n.idx, e.realStore(w), nil)
+	for i := 1; i < len(n.main); i++ {
+		c.arrive(n.main[i])
 	}
-	st2 := dpos.NewStatus(c, cdb2, sdb, 0)
-	fmt.Printf("restart %+v need0=%v\n", st2.VerifC08Dump(), st2.NeedReorganization(0))
-	ld, ok := dpos.VerifC08LoaderDump()
-	fmt.Printf("loader %v %+v\n", ok, ld)
-	// rollback to block 6
-	st2.Update(blocks[5])
-	fmt.Printf("rollback %+v\n", st2.VerifC08Dump())
+	return c
+}
+
+// ---------------------------------------------------------------- part B: random multi-node schedules
+
+func partB(e *env) {
+	run := e.run
+	rng := run.Rng
+	nsim := run.Pick(60, 900)
+	for k := 0; k < nsim; k++ {
+		var n, byz int
+		switch r := rng.Intn(20); {
+		case r < 9:
+			n, byz = 4, rng.Intn(4)
+		case r < 12:
+			n, byz = 4, -1
+		case r < 14:
+			n, byz = 3, -1
+		case r < 15:
+			n, byz = 2, -1
+		case r < 16:
+			n, byz = 1, -1
+		case r < 18:
+			n, byz = 5, -1
+		default:
+			n, byz = 7, rng.Intn(7)
+			if rng.Bool() {
+				byz = -1
+			}
+		}
+		w := e.world(rng.Fork(), seqN(n))
+		rec := &recorder{run: run}
+		s := newSim(w, n, byz, rec, func(i int) chainStore {
+			if i == 0 {
+				return e.realStore(w)
+			}
+			return lightFor(w)(i)
+		})
+		run.Count(fmt.Sprintf("sim n=%d byz=%v", n, byz >= 0))
+		parts := partitions(len(s.nodes))
+		slots := 12 + rng.Intn(run.Pick(40, 70))
+		calm := rng.Intn(3) == 0 // mostly connected
+		for t := 1; t <= slots && s.nodes[0].best.no < 90; t++ {
+			s.slot = t
+			if rng.Chance(1, 4) {
+				if calm && rng.Chance(3, 4) {
+					s.groups = append([]int{}, parts[0]...)
+				} else {
+					s.groups = append([]int{}, parts[rng.Intn(len(parts))]...)
+				}
+				s.logf("slot %d: partition %v", t, s.groups)
+			}
+			p := t % n
+			if p == byz {
+				s.byzRandom(rng)
+			} else if rng.Chance(17, 20) {
+				b := s.produce(s.nodeAt(p))
+				s.logf("slot %d: %s produces %s on %s (confirms %d)", t, w.prods[w.gbps[p]].name, b.name, b.prev.name, b.confirms)
+			} else {
+				s.logf("slot %d: %s misses its slot", t, w.prods[w.gbps[p]].name)
+			}
+			if rng.Chance(4, 5) {
+				s.sync()
+			}
+			if rng.Chance(1, 14) {
+				i := rng.Intn(len(s.nodes))
+				if rng.Chance(1, 2) {
+					i = 0
+				}
+				s.nodes[i].restart()
+				s.logf("slot %d: node %s restarts", t, s.nodes[i].selfName())
+			}
+			if rng.Chance(1, 5) {
+				probes(s.nodes[0], rng)
+			}
+			s.check()
+		}
+		for i := range s.groups { // heal and settle
+			s.groups[i] = 0
+		}
+		s.sync()
+		s.check()
+	}
+}
+
+func (s *sim) byzRandom(rng *vh.Rng) {
+	tips := s.distinctTips()
+	pick := func() *sblk {
+		t := tips[rng.Intn(len(tips))]
+		for k := rng.Intn(3); k > 0 && t.prev != nil && rng.Chance(1, 3); k-- {
+			t = t.prev
+		}
+		return t
+	}
+	nb := []int{0, 1, 1, 1, 2, 2}[rng.Intn(6)]
+	var made []*sblk
+	for i := 0; i < nb; i++ {
+		parent := pick()
+		dup := false
+		for _, m := range made {
+			dup = dup || m.prev == parent
+		}
+		if dup {
+			continue
+		}
+		b := s.byzBlock(parent)
+		made = append(made, b)
+		var to []int
+		for _, i := range s.knowers(parent) {
+			if rng.Chance(2, 3) {
+				to = append(to, i)
+			}
+		}
+		s.logf("slot %d: equivocator produces %s on %s (confirms %d), delivered to %v", s.slot, b.name, parent.name, b.confirms, to)
+		s.deliver(b, to)
+	}
+	if nb == 0 {
+		s.logf("slot %d: equivocator silent", s.slot)
+	}
+}
+
+// probes: the veto functions around the LIB boundary (recorded node).
+func probes(nd *node, rng *vh.Rng) {
+	nd.enter()
+	defer nd.leave()
+	d := nd.dump()
+	for _, delta := range []int64{-1, 0, 1} {
+		r := int64(d.Lib.No) + delta
+		if r < 0 {
+			continue
+		}
+		ok := nd.needReorg(uint64(r))
+		if !nd.fault && uint64(r) < nd.maxLib.no && ok {
+			nd.failVeto(fmt.Sprintf("NeedReorganization(%d) = true below the LIB %d this node reported", r, nd.maxLib.no))
+		}
+		if !nd.fault && d.Loaded && ok != (uint64(r) >= d.Lib.No) {
+			nd.fail(fmt.Sprintf("NeedReorganization(%d) = %v with LIB %d", r, ok, d.Lib.No), "")
+		}
+	}
+	// a competing block numbered lib.no, lib.no+1 (child of the main-chain block below it, some member as producer)
+	for _, delta := range []uint64{0, 1} {
+		no := d.Lib.No + delta
+		if no == 0 || no > uint64(len(nd.main)) {
+			continue
+		}
+		parent := nd.main[no-1]
+		b := nd.w.mkBlock(parent, nd.w.gbps[rng.Intn(len(nd.w.gbps))], 1)
+		ok := nd.verifyTs(b)
+		if !nd.fault && b.no <= nd.maxLib.no && ok {
+			nd.failVeto(fmt.Sprintf("VerifyTimestamp accepted a block numbered %d <= LIB %d this node reported", b.no, nd.maxLib.no))
+		}
+		if !nd.fault && d.Loaded && ok != (b.no > d.Lib.No) {
+			nd.fail(fmt.Sprintf("VerifyTimestamp(block %d) = %v with LIB %d", b.no, ok, d.Lib.No), "")
+		}
+	}
+}
+
+// ---------------------------------------------------------------- part C: arbitrary streams (correspondence only)
+
+func partC(e *env) {
+	run := e.run
+	rng := run.Rng
+	for k := 0; k < run.Pick(40, 500); k++ {
+		n := 1 + rng.Intn(7)
+		w := e.world(rng.Fork(), seqN(n))
+		rec := &recorder{run: run}
+		self := -1
+		if rng.Chance(2, 3) {
+			self = rng.Intn(n)
+		}
+		nd := newNode(w, self, e.realStore(w), rec)
+		nd.fault = true
+		run.Count("wild-session")
+		all := []*sblk{w.gblk}
+		steps := 10 + rng.Intn(50)
+		for t := 0; t < steps && nd.best.no < 80; t++ {
+			switch r := rng.Intn(100); {
+			case r < 70:
+				parent := nd.best
+				if rng.Chance(1, 4) {
+					parent = all[rng.Intn(len(all))]
+				}
+				no := parent.no + 1
+				bpi := rng.Intn(n)
+				if rng.Chance(1, 12) {
+					bpi = rng.Intn(len(w.prods)) // possibly an outsider
+				}
+				var c uint64
+				switch rng.Intn(10) {
+				case 0:
+					c = 0
+				case 1:
+					c = no + 1
+				case 2:
+					c = no + 2 + uint64(rng.Intn(5))
+				case 3:
+					c = ^uint64(0) - uint64(rng.Intn(3))
+				case 4:
+					c = no
+				default:
+					c = 1 + uint64(rng.Intn(n+2))
+				}
+				b := w.mkBlock(parent, bpi, c)
+				all = append(all, b)
+				nd.arrive(b)
+			case r < 78: // raw Update with an arbitrary stored block (the rollback branch with any target)
+				b := all[rng.Intn(len(all))]
+				if b == w.gblk || !nd.known[b] {
+					continue
+				}
+				nd.enter()
+				nd.update(b)
+				nd.leave()
+				run.Count("raw-update")
+			case r < 84:
+				nd.restart()
+			case r < 90:
+				probes(nd, rng)
+			case r < 95:
+				k := 1 + rng.Intn(8)
+				var ids []string
+				for i := 0; i < k; i++ {
+					ids = append(ids, w.prods[i].id)
+				}
+				if err := nd.cm.Update(ids); err != nil {
+					panic(err)
+				}
+				rec.op(fmt.Sprintf("size %d", k), "ok", true)
+			default:
+				k := 1 + rng.Intn(8)
+				var ids, names []string
+				for i := 0; i < len(w.prods); i++ {
+					if rng.Chance(1, 2) {
+						ids = append(ids, w.prods[i].id)
+						names = append(names, w.prods[i].name)
+					}
+				}
+				nd.enter()
+				nd.st.VerifC08GC(ids, uint16(k))
+				d := nd.dump()
+				nd.leave()
+				nm := "-"
+				if len(names) > 0 {
+					nm = strings.Join(names, ",")
+				}
+				rec.op(fmt.Sprintf("gcbps %d %s", k, nm), w.showStatus(d), true)
+			}
+		}
+	}
+	// ill-formed lines: the model driver must answer bad-op
+	for _, l := range []string{"frobnicate", "update", "update nosuch -", "blk x y z", "needreorg x", "size", "swap nosuch"} {
+		run.Op(l, "bad-op", false)
+	}
+}
+
+// ---------------------------------------------------------------- part D: bounded exhaustive exploration (SEARCH)
+
+type choice struct {
+	part    []int
+	produce bool
+	byz     [][2]int // (tip index, recipient mask) per equivocator block
+}
+
+func partD(e *env) {
+	run := e.run
+	depth := run.Pick(4, 6)
+	budget := run.Pick(60000, 2500000)
+	for _, byz := range []int{3, 1} {
+		w := e.world(run.Rng.Fork(), seqN(4))
+		s := newSim(w, 4, byz, nil, lightFor(w))
+		// warm-up: connected network, everybody (the equivocator too, honestly) produces: LIB is moving
+		for t := 1; t <= 9; t++ {
+			s.slot = t
+			p := t % 4
+			if p == byz {
+				b := s.byzBlock(s.nodes[0].best)
+				s.deliver(b, []int{0, 1, 2})
+			} else {
+				s.produce(s.nodeAt(p))
+			}
+			s.sync()
+		}
+		seen := map[[16]byte]bool{}
+		visited, capped := 0, false
+		parts := partitions(3)
+		var dfs func(s *sim, t, d int)
+		dfs = func(s *sim, t, d int) {
+			if d == 0 || capped {
+				return
+			}
+			p := t % 4
+			for _, part := range parts {
+				var acts []choice
+				if p == byz {
+					tips := s.distinctTips()
+					acts = append(acts, choice{part: part})
+					for i := range tips {
+						acts = append(acts, choice{part: part, byz: [][2]int{{i, 7}}})
+						for j := i + 1; j < len(tips); j++ {
+							acts = append(acts, choice{part: part, byz: [][2]int{{i, 7}, {j, 7}}})
+						}
+					}
+				} else {
+					acts = []choice{{part: part, produce: true}, {part: part}}
+				}
+				for _, a := range acts {
+					if visited >= budget {
+						capped = true
+						return
+					}
+					c := s.clone()
+					c.slot = t
+					c.groups = append([]int{}, a.part...)
+					if p == byz {
+						tips := c.distinctTips()
+						var made []*sblk
+						for _, bz := range a.byz {
+							made = append(made, c.byzBlock(tips[bz[0]]))
+						}
+						for _, b := range made {
+							c.deliver(b, c.knowers(b.prev))
+						}
+						c.logf("slot %d: partition %v, equivocator blocks %d", t, a.part, len(made))
+					} else if a.produce {
+						b := c.produce(c.nodeAt(p))
+						c.logf("slot %d: partition %v, p%d produces %s on %s", t, a.part, p, b.name, b.prev.name)
+					} else {
+						c.logf("slot %d: partition %v, p%d misses", t, a.part, p)
+					}
+					c.sync()
+					c.check()
+					visited++
+					h := sha256.Sum256([]byte(fmt.Sprintf("%d|", t%4) + c.state()))
+					var k [16]byte
+					copy(k[:], h[:16])
+					if seen[k] {
+						run.Count("explore-duplicate-state")
+						continue
+					}
+					seen[k] = true
+					run.Eval("explore "+string(k[:]), true)
+					dfs(c, t+1, d-1)
+				}
+			}
+		}
+		dfs(s, 10, depth)
+		run.Count(fmt.Sprintf("explore byz=p%d depth=%d states=%d capped=%v", byz, depth, len(seen), capped))
+	}
+	_ = dpos.VerifC08LoaderBest
 }
